@@ -108,9 +108,15 @@ Definition isnil {A} (l : list A) : bool := match l with [] => true | _ => false
 Definition MAX_EMAX : Z := 999999999999999999.
 Definition MAX_ETINY : Z := (-1999999999999999997)%Z.   (* Emin - (prec - 1) of mpd_maxcontext *)
 
+(** what libmpdec can represent at all: adjusted exponent <= Emax and exponent >= Etiny of mpd_maxcontext *)
+Definition representable (c : N) (ex : Z) : bool :=
+  ((ex + ndigits c - 1 <=? MAX_EMAX) && (MAX_ETINY <=? ex))%Z.
+(** every decimal.Decimal object satisfies this (well-formedness of a [dec] standing for a Python value) *)
+Definition dec_wf (d : dec) : bool :=
+  match d with Fin _ c e => representable c e | _ => true end.
 (** exact construction: any Rounded / Clamped / Overflow status is InvalidOperation *)
 Definition finite_exact (neg : bool) (c : N) (ex : Z) : result dec :=
-  if ((MAX_EMAX <? ex + ndigits c - 1) || (ex <? MAX_ETINY))%Z then Err Crash else OK (Fin neg c ex).
+  if representable c ex then OK (Fin neg c ex) else Err Crash.
 
 (** the exponent part: [eE][+-]?digits+ up to the end, or nothing *)
 Definition parse_exponent (s : text) : option Z :=
